@@ -100,7 +100,7 @@ func (m *MapCodec) New(r *ReadBuf) unsafe.Pointer {
 }
 
 func (m *MapCodec) Omit(p unsafe.Pointer) bool {
-	return m.omitEmpty && maplen(p) == 0
+	return m.omitEmpty && maplen(*(*unsafe.Pointer)(p)) == 0
 }
 
 func (m *MapCodec) Write(w *WriteBuf, p unsafe.Pointer) {
